@@ -44,6 +44,8 @@ def values_for(kind, n, rng):
         return [pd.Timestamp("2020-01-01") + pd.Timedelta(days=rng.randint(0, 9)) for _ in range(n)]
     if kind == "timedelta":
         return [pd.Timedelta(days=rng.randint(0, 9)) for _ in range(n)]
+    if kind == "datetime_tz":
+        return [pd.Timestamp("2020-01-01", tz="UTC") + pd.Timedelta(days=rng.randint(0, 9)) for _ in range(n)]
     if kind == "complex":
         return [complex(1, rng.randint(0, 3)) for _ in range(n)]
     raise ValueError(kind)
@@ -51,7 +53,7 @@ def values_for(kind, n, rng):
 
 DEFAULT_UNIT = {"float": "-", "int": "-", "text": "text", "bool": "onoff", "datetime": "-"}
 VAL_KINDS = ["float", "int", "text", "bool", "datetime"]
-ODD_KINDS = ["timedelta"]
+ODD_KINDS = ["timedelta", "datetime_tz", "datetime_tz"]
 PHYS = ["m", "kg", "mm", "s"]
 CNAMES = ["a", "b", "c", "d", "e", "x1", "new"]
 
@@ -76,7 +78,7 @@ def gen_case(rng, max_ops=8, type_changing=False):
 
 
 def gen_op(rng, type_changing=False):
-    kinds_pool = VAL_KINDS + (ODD_KINDS if rng.random() < 0.1 else [])
+    kinds_pool = VAL_KINDS + (ODD_KINDS if rng.random() < 0.2 else [])
     facade = [
         lambda: {"op": "add_column", "col": rng.choice(CNAMES), "kind": rng.choice(kinds_pool),
                  "unit": rng.choice([None, None, "m", "text", "onoff", "kg", "-"])},
